@@ -967,6 +967,8 @@ def cli_option_stream(chk, rng, stats):
              ("%Upper{%Base()}", "%Lower{%N()}%Ext()", "%Lower{{P}}%Ext()"),
              ("%Base()-%Count(start=5)", "%N()|%Upper()", "{P}|%Upper()"),
              ("x%Count()", "%Upper{%N()_%N()}%Ext()", "%Upper{{P}_{P}}%Ext()"),
+             # a pattern written over several lines (the lexer skips line breaks and tabs)
+             ("%Base()\n_v2", "%N()%Ext()", "{P}%Ext()"), ("%Upper(){\n%Base()\n}\t-", "%N()x", "{P}x"),
              # constant patterns (no tag at all) with escapes, and constant patterns that are not valid templates
              ("\\{draft\\}", "%N()_%Name()", "{P}_%Name()"), ("a\\|b", "%N()%Ext()", "{P}%Ext()"), ("a}b", "%N()_%Name()", "{P}_%Name()"),
              ("x{y", "%Name()%N()", "%Name(){P}"), ("plain", "%N()_%Name()", "{P}_%Name()"),
